@@ -153,7 +153,16 @@ func (ex *Exec) wellFormed(st *State, v Value, pc *Term) {
 				BVSle(BV(0, 64), x.Off), BVSle(x.Off, BV(1<<40, 64))))
 			ex.assume(pc, Implies(Eq(x.ID, RefNil()), And(Eq(x.Len, BV(0, 64)), Eq(x.Cap, BV(0, 64)))))
 		}
-	case ChanV, MapV:
+	case ChanV:
+		if !x.Ref.lit && ex.noAlloc == 0 {
+			al := st.get("alloc", SArr(SRef, SBool))
+			ex.assume(pc, Or(Eq(x.Ref, RefNil()), Select(al, x.Ref)))
+		}
+	case MapV:
+		if !x.Ref.lit && ex.noAlloc == 0 {
+			al := st.get("alloc", SArr(SRef, SBool))
+			ex.assume(pc, Or(Eq(x.Ref, RefNil()), Select(al, x.Ref)))
+		}
 	case StringV:
 		ex.assume(pc, And(BVSle(BV(0, 64), x.Len), BVSle(x.Len, BV(1<<40, 64))))
 	case BufV:
